@@ -139,3 +139,10 @@ func init() {
 		return nil
 	}
 }
+
+func init() {
+	// a blocked call is reported with the goroutine stack; there is nothing to re-run
+	Replayers["stack"] = func(d map[string]any) error {
+		return fmt.Errorf("%v\n%v", d["message"], d["stack"])
+	}
+}
